@@ -521,6 +521,13 @@ def entry_items() -> list[dict]:
                 out.append(item("entry", "same_operation_other_config", spec, o, cfgs=[UTF8, ASCII], entry="sequence", cfg_how="call"))
                 out.append(item("entry", "same_operation_other_config", spec, o, cfgs=[ASCII, UTF8], entry="sequence", cfg_how="call"))
                 out.append(item("entry", "same_operation_same_config", spec, o, cfgs=[ASCII, ASCII], entry="sequence", cfg_how="call"))
+                # two configurations that differ in exactly ONE setting (a cache keyed on the other one cannot tell them apart)
+                for x00 in (True, False):
+                    a, b = {"allow_x00": x00, "codec": "utf-8"}, {"allow_x00": x00, "codec": "ascii"}
+                    out.append(item("entry", "same_operation_codec_only_differs", spec, o, cfgs=[a, b], entry="sequence", cfg_how="call"))
+                for codec in ("utf-8", "ascii"):
+                    a, b = {"allow_x00": True, "codec": codec}, {"allow_x00": False, "codec": codec}
+                    out.append(item("entry", "same_operation_x00_only_differs", spec, o, cfgs=[a, b], entry="sequence", cfg_how="call"))
         # one deterministic run each of the engine's fuzzing phase and of the test the pytest plugin builds
         for entry in ("engine", "pytest"):
             out.append(item("entry", entry, spec, ops(), security=keys, cfgs=[on], entry=entry, cfg_how="stored"))
